@@ -111,9 +111,9 @@ var idealisations = []string{
 
 // runProof generates and discharges all obligations tagged with prop.
 func runProof(eng *Engine, prop string, tier string, kfs []KnownFinding, replayDir string) (*proofPart, []string) {
-	quickSec, raceSec := 3, 12
+	quickSec, raceSec := 8, 25
 	if tier == "thorough" {
-		quickSec, raceSec = 6, 60
+		quickSec, raceSec = 15, 90
 	}
 	pp := &proofPart{ByBackend: map[string]int{}, ByKind: map[string]int{}}
 	var lines []string
@@ -185,7 +185,7 @@ func runProof(eng *Engine, prop string, tier string, kfs []KnownFinding, replayD
 	}
 	dir, _ := os.MkdirTemp("", "vcgo-"+prop)
 	defer os.RemoveAll(dir)
-	solveAll(all, dir, quickSec, raceSec, 12)
+	solveAll(all, dir, quickSec, raceSec, 8)
 	for _, o := range all {
 		pp.ByKind[o.Kind]++
 		pp.SolverMs += o.Millis
